@@ -208,6 +208,7 @@ func (g *Gen) Generate() {
 		}
 		g.assumeAllocated(entry, v)
 	}
+	g.closedElems(entry)
 	for _, fv := range fn.FreeVars {
 		v := g.fresh(fv.Type(), "fv:"+fv.Name())
 		g.vals[fv] = v
@@ -792,3 +793,20 @@ func (g *Gen) autoCandidates(li *loopInfo, entryVals map[*ssa.Phi]Val) []autoCan
 }
 
 var _ = types.Typ
+
+// closedElems states, for an unknown heap (entry state, loop head, state after a call that writes pointer slices), that the
+// pointers stored in slice elements are nil or allocated: the quantified form of the assumption made for every pointer the code
+// loads (assumeAllocated). Without it a freshly allocated object could not be told apart from z.members[i] in a specification.
+func (g *Gen) closedElems(h Heap) {
+	c := compE(SRef)
+	if _, ok := g.compSort[c]; !ok {
+		return
+	}
+	e, a := g.hget(h, c), g.hget(h, g.allocComp())
+	key := "closed:" + e + "/" + a
+	if g.S.declared[key] {
+		return
+	}
+	g.S.declared[key] = true
+	g.S.assert(fmt.Sprintf("(forall ((r Ref) (i Int)) (! (or (= (select (select %s r) i) null) (select %s (select (select %s r) i))) :pattern ((select (select %s r) i))))", e, a, e, e))
+}
